@@ -19,6 +19,9 @@ pub struct Edit {
     pub with: String,
     /// 0 replace_ref, 1 replace_char (if one char), 2 replace_own, 3 replace_char_iter
     pub api: u8,
+    /// the replaced range is empty (an insertion in front of the character the skip leads to, or at the end)
+    #[serde(default)]
+    pub insert: bool,
 }
 
 #[derive(Clone, Debug, Serialize, Deserialize)]
@@ -80,16 +83,23 @@ fn apply_model(cur: &Tracked, batch: &[Edit]) -> (Tracked, Vec<(std::ops::Range<
     }
     byte_of.push(b);
     let mut p = 0usize;
+    let mut last_ins = false;
     for e in batch {
         let remaining = n - p;
-        if remaining == 0 {
+        let ins = e.insert && !e.with.is_empty();
+        if remaining == 0 && !ins {
             break;
         }
         let skip = ix(e.skip, remaining.min(4) + 1).min(remaining);
-        if remaining - skip == 0 {
+        if remaining - skip == 0 && !ins {
             break;
         }
-        let len = 1 + ix(e.len, (remaining - skip).min(4));
+        if ins && skip == 0 && last_ins {
+            // two insertions at one point would be one insertion
+            continue;
+        }
+        last_ins = ins;
+        let len = if ins { 0 } else { 1 + ix(e.len, (remaining - skip).min(4)) };
         for i in p..p + skip {
             out.push(cur[i]);
         }
@@ -182,7 +192,7 @@ impl Property for C08 {
     fn rule(&self) -> &'static str {
         "cases: (a) the C01 product (dictionary x plugin configuration x texts x modes): begin_c/end_c of every morpheme (and sub-morpheme) must equal the \
          number of code points before its byte offsets and slicing by code points must give the surface; (b) edit histories on a bare InputBuffer: an \
-         original of 1-40 pool characters (1-4 byte widths), 1-4 batches of sorted, non-overlapping, possibly adjacent replacements of 1-4 characters by \
+         original of 1-40 pool characters (1-4 byte widths), 1-4 batches of sorted, non-overlapping, possibly adjacent replacements of 0-4 characters (0: an insertion) by \
          empty / shorter / equal / longer strings through all four editor entry points; after every batch and after build() every accessor of the offset map \
          is compared with a tracker model for every character boundary and every boundary range. Non-trivial: (a) a text whose normalised form differs from \
          the original; (b) >= 2 batches containing a deletion and an expansion over >= 2 byte widths."
@@ -190,13 +200,13 @@ impl Property for C08 {
     fn assumptions(&self) -> Vec<&'static str> {
         vec![
             "'maps each unreplaced character to itself' is read as: its start maps to its own original start, except that position 0 is anchored to 0 (start-to-start wins after a leading deletion)",
-            "edits are sorted, non-overlapping, non-empty ranges on character boundaries; batches that would empty the text are skipped",
+            "edits are sorted, non-overlapping ranges on character boundaries, empty ranges (insertions) included, at most one insertion per point; batches that would empty the text are skipped",
         ]
     }
     fn strategy(&self, tier: Tier) -> BoxedStrategy<Case> {
         let dp = DicParams::small();
         let w = (world(dp, CfgParams::full()), vec(pieces_long(tier.pick(10, 30)), 1..=3)).prop_map(|((dic, cfg), texts)| Case::World { dic, cfg, texts });
-        let edit = (any::<u16>(), any::<u16>(), edit_string(), 0u8..4).prop_map(|(skip, len, with, api)| Edit { skip, len, with, api });
+        let edit = (any::<u16>(), any::<u16>(), edit_string(), 0u8..4, prop::bool::weighted(0.12)).prop_map(|(skip, len, with, api, insert)| Edit { skip, len, with, api, insert });
         let e = (vec(pool_char(), 1..=tier.pick(24, 40)).prop_map(|v| v.into_iter().collect::<String>()), vec(vec(edit, 1..=6), 1..=4), prop_oneof![2 => Just(0u8), 1 => 1u8..8])
             .prop_map(|(original, batches, age)| Case::Edits { original, batches, age });
         prop_oneof![1 => w, 3 => e].boxed()
@@ -332,6 +342,17 @@ impl Property for C08 {
                     let (next, edits) = apply_model(&tracked, batch);
                     if next.is_empty() || edits.is_empty() {
                         continue;
+                    }
+                    if edits.iter().any(|(r, _, _)| r.is_empty()) {
+                        rep.class("edits:insertion (empty replaced range)");
+                    }
+                    // known finding F32: after a leading removal the first surviving character is anchored to 0 in the
+                    // stored map; an insertion in front of it in a later batch leaves it there although it is not first
+                    if let (Some((_, Some(o))), Some((r, _, _))) = (tracked.first(), edits.first()) {
+                        if *o > 0 && r.start == 0 && r.is_empty() && !ctx.strict {
+                            rep.excluded = Some("F32");
+                            return rep;
+                        }
                     }
                     if age & 4 != 0 {
                         // the same edits in a batch whose edit function fails after recording them: the batch counts
